@@ -77,8 +77,17 @@ def parseSysOp (o : OState) : List String → Option Sys.Op
   | ["exit", base, st] =>
     if st.startsWith "sig" then some (.exit base st false) else some (.exit base s!"code{st}" (st == "0"))
   | ["sleep", _] => some .nop
+  | "hook" :: _ => some .nop
   | ["reset", reason] => some (.reset reason)
   | ["shutdown"] => some .shutdown
+  | _ => none
+
+/-- the actor and canonical call name of an API op (none for platform ops) -/
+def opActor : List String → Option (String × String)
+  | "rt" :: "raw" :: m :: p :: _ => some ("rt", s!"raw:{m}:{p}")
+  | "rt" :: c :: _ => some ("rt", c)
+  | k :: name :: c :: _ =>
+    if k == "ext" || k == "int" then some (name, if c.startsWith "next" then "next" else c) else none
   | _ => none
 
 /-- all states reachable by letting armed timers fire (each followed by settling), depth-bounded -/
@@ -119,7 +128,24 @@ def sysModel : NModel where
     match parseSysOp o ws with
     | none => []
     | some op =>
-      let all := timerClosure 0 4 [Sys.step 0 o.s op] ++ timerClosure 1 4 [Sys.step 1 o.s op] ++ timerClosure 2 4 [Sys.step 2 o.s op]
+      -- timers may fire before the op takes effect as well as after it
+      let actor := opActor ws
+      let all := (List.range 6).foldl (fun acc v =>
+        let pre := timerClosure v 3 [{ o.s with out := [] }]
+        let mid := pre.map fun s =>
+          -- the calling process may have been killed by a timer-driven reset just before the call
+          match actor with
+          | some (a, c) =>
+            if (procOf s a).isNone then s.emit s!"{a}.{c}=aborted" else settle v 400 (applyOp s op)
+          | none => settle v 400 (applyOp s op)
+        acc ++ timerClosure v 3 mid) []
+      -- … or while the request was in flight: the server processed it, the client saw an abort
+      let all := all ++ (match actor with
+        | some (a, c) => all.filterMap fun s =>
+            if (procOf s a).isNone && s.out.any (fun e => e.startsWith s!"{a}.{c}=" && !e.endsWith "=aborted") then
+              some { s with out := s.out.map fun e => if e.startsWith s!"{a}.{c}=" then s!"{a}.{c}=aborted" else e }
+            else none
+        | none => [])
       all.map fun s => let o' := updLastRt o s; (o', obsWith o'.aliases s)
   dedup := dedupStates
 
